@@ -31,7 +31,16 @@ fn solo_std(rep: &mut Report, property: &str, tier: Tier, with_aggregation: bool
         sc.max_depth = tier.pick(4, 5);
         solo::run(rep, property, "blocks+tcs", sc);
     }
-    // payload-resumed processing path: blocks whose batch is missing, the batch arriving later
+    // correctly signed but unjustified blocks (rounds skipped without a TC, QC round >= block round)
+    for &n in tier.pick(vec![0usize], vec![0usize, 1, 2, 3]).iter() {
+        let mut sc: SoloCfg = solo::default_cfg(n, 2, tier);
+        sc.with_votes = false;
+        sc.with_timeouts = false;
+        sc.stale_variants = false;
+        sc.with_unjustified = true;
+        sc.max_depth = tier.pick(4, 5);
+        solo::run(rep, property, "blocks+unjustified", sc);
+    }
     for &n in tier.pick(vec![0usize], vec![0usize, 3]).iter() {
         let mut sc: SoloCfg = solo::default_cfg(n, tier.pick(2, 3), tier);
         sc.with_votes = false;
